@@ -596,7 +596,7 @@ def sweep_values(cfg, n):
     return [2 * i + 2 for i in range(n)], list(range(1, 2 * n + 4))
 
 
-def lookup_sweep(cfg, nmax=40):
+def lookup_sweep(cfg, nmax=40, extra_sizes=()):
     """For n in 0..nmax: a set of n elements, then every lookup, insert(absent), erase(key) and insert with every correct
     hint for every key rank.  The set is rebuilt before each group so that a failure does not propagate."""
     out = []
@@ -605,8 +605,15 @@ def lookup_sweep(cfg, nmax=40):
         top = min(top, cfg.cap - 1)
     if cfg.cmp == "mod":
         top = min(top, 2)
-    for n in range(0, top + 1):
+    sizes = list(range(0, top + 1))
+    # a few large sets with a thin selection of key ranks (transcript volume grows with n^3)
+    big = [b for b in extra_sizes if b > top and (cfg.cap is None or b < cfg.cap) and cfg.cmp != "mod"]
+    for n in sizes + big:
         present, probes = sweep_values(cfg, n)
+        if n in big:
+            keep = sorted(set([0, 1, 2, len(probes) // 2 - 1, len(probes) // 2, len(probes) // 2 + 1, len(probes) - 3, len(probes) - 2, len(probes) - 1]
+                              + [2 ** k for k in range(2, 10) if 2 ** k < len(probes)] + [2 ** k + 1 for k in range(2, 10) if 2 ** k + 1 < len(probes)]))
+            probes = [probes[i] for i in keep if 0 <= i < len(probes)]
         m = model_of(cfg, present)
         out.append("H s%d" % n)
         build = "ctor_range 0 %s" % _vs(present[::2] + present[1::2])
